@@ -345,8 +345,8 @@ def _data(kind, tier, lo=1, cheap=False):
 
 
 def _seeds3(d, tier):
-    """3 seeds for short data, one (rotating) seed for the many tuples of length >= 4 in the quick tier"""
-    if tier != 'quick' or len(d) <= 3: return (0, 1, 2)
+    """3 seeds for short data, one (rotating) seed for the many tuples of length >= 4 (thorough: >= 5)"""
+    if len(d) <= (3 if tier == 'quick' else 4): return (0, 1, 2)
     return (sum(hash(a) for a in d) % 3,)
 
 
@@ -483,12 +483,12 @@ def _mk():
             lo = 2 if fname in ('variance', 'stdev') else 1
             cheap = fname in ('mean', 'variance', 'pvariance')
             add(f'{fname}_{sfx}', fname, ckf(fname), in_simple(fname, kind, lo, cheap, seeds3=fname.startswith('median'), multisets=fname in ('stdev', 'pstdev')),
-                dom.format(lo=lo) + ('; 3 seeds (quick: 1 for length >= 4)' if fname.startswith('median') else '; quick: length 4 as sorted tuples' if fname in ('stdev', 'pstdev') else ''))
+                dom.format(lo=lo) + ('; 3 seeds (1 rotating seed for length >= 4, thorough >= 5)' if fname.startswith('median') else '; quick: length 4 as sorted tuples' if fname in ('stdev', 'pstdev') else ''))
             if fname in GIVEN:
                 add(f'{fname}_given_{sfx}', fname, ckf(fname), in_given(fname, kind), 'tuples of length <= 3 over -2..2 (fxp: <= 2 over 5 values) + 20 data sets, given mean in 3 fixed points and the exact mean')
         for method in ('exclusive', 'inclusive'):
             add(f'quantiles_{method[:4]}_{sfx}', 'quantiles', ckf('quantiles'), in_quantiles(kind, method),
-                dom.format(lo=2) + f"; n = 2..6 (quick: one rotating n for length >= 4), method='{method}', 3 seeds (quick: 1 for length >= 4); one data set of 12 with n = 10; n = 1")
+                dom.format(lo=2) + f"; n = 2..6 (quick: one rotating n for length >= 4), method='{method}', 3 seeds (1 rotating seed for length >= 4, thorough >= 5); one data set of 12 with n = 10; n = 1")
         if kind != 'x16.8':
             add(f'mode_unique_{sfx}', 'mode', ckf('mode'), in_mode(kind, True), 'data with a unique most common value: ' + (dom.format(lo=1) if kind == 'i32' else 'tuples of length 1..3 (5) over (-2, 0, 1, 3) + integral data sets'))
             add(f'mode_ties_{sfx}', 'mode', ckf('mode'), in_mode(kind, False), 'data with several most common values (documented: the first one encountered): same domain')
